@@ -20,6 +20,15 @@ Clauses:
   C07.no_stored_actions  the Calculate action group has no stored actions
   C07.same_data          fetch_table of the reopened engine equals fetch_table of the engine that
                          produced the data, for every table and column (formula columns included)
+The action mix includes the life cycle of EMPTY columns (formula columns with an empty formula, what
+the UI creates as a new column) and other formulas that read nothing: created, cleared, retyped,
+removed and re-created under the same name with another type, filled with data (seed document
+c07_empty, C07Monitor.empty_column_bundle).
+When the save / decode round trip itself is faithful and the difference comes from live formula
+values that were stale, the failure is C05's subject (known class) ONLY if another cell could have
+made the value stale: a differing formula cell whose formula reads nothing (empty formula, literal)
+is a function of its column's type and formula text alone and gets a class of its own
+(live-value-of-input-free-formula-differs|...), which is not a known finding.
 Excluded as in the statement: volatile formulas (none in the formula pool), Node-side number
 typing (numbers are handed over unchanged).  Bounded: seeded random histories; never a proof."""
 import json
@@ -467,7 +476,8 @@ def main():
   rep.assumptions += [
     common.SHIM_ASSUMPTION,
     "bounded: seeded random histories over the seed documents and action alphabet of "
-    "vlib/rtc/gen.py; not a proof",
+    "vlib/rtc/gen.py plus two seed documents of this check (list-valued cells; empty / constant "
+    "formula columns) and the empty-column action shapes (22% of the bundles); not a proof",
     "the database step is emulated from DocStorage._encodeValue (app/server/lib/DocStorage.ts): "
     "lists -> marshalled blobs (ChoiceList/RefList lists of plain strings/numbers -> JSON text), "
     "Bool columns return 1/0, other booleans / NaN / -0.0 / number-like strings in numeric columns "
